@@ -12,7 +12,7 @@ NOTE_COMMON = ("Trusted base: Lean 4.33.0 kernel (axioms per theorem are printed
                "model lean/Ioc tied to /repo's working tree on every run by (a) the differential correspondence harness "
                "(real code built with -tags verif vs the compiled Lean driver on the same seeded scenarios) and (b) the go/ast "
                "facts translator regenerating lean/Ioc/Generated/Facts.lean and (c) the program translator regenerating the syntax "
-               "trees of 154 functions (lean/Ioc/Generated/Progs.lean, MiniGo: lean/Ioc/GoSem.lean) about which the Cxx_code_* theorems "
+               "trees of 169 functions (lean/Ioc/Generated/Progs.lean, MiniGo: lean/Ioc/GoSem.lean) about which the Cxx_code_* theorems "
                "are stated; the harness generators, canonicalisation and oracles; the MiniGo interpreter and the interpretation of "
                "the primitives in lean/Ioc/Sem*.lean. ")
 
